@@ -598,9 +598,17 @@ func caseHasMandatory(cfg map[string]xnode, nd Node, path []string, errs []error
 }
 
 func resolveDescendant(c xnode, path []xml.Name) string {
+	val, _ := lookupDescendant(c, path)
+	return val
+}
+
+// lookupDescendant returns the value of the leaf at path below c and whether
+// that leaf exists at all (an existing leaf may have the empty string as its
+// value).
+func lookupDescendant(c xnode, path []xml.Name) (string, bool) {
 
 	if len(path) == 0 {
-		return ""
+		return "", false
 	}
 	hd, tl := path[0], path[1:]
 	for _, ch := range c.children(xutils.Sorted) {
@@ -610,15 +618,15 @@ func resolveDescendant(c xnode, path []xml.Name) string {
 		csn := c.schema().Child(ch.YangDataName())
 		switch csn.(type) {
 		case Container:
-			return resolveDescendant(ch, tl)
+			return lookupDescendant(ch, tl)
 		case Leaf:
 			// Compiler enforces non-empty leaf reference
-			return ch.YangDataValuesNoSorting()[0]
+			return ch.YangDataValuesNoSorting()[0], true
 		default:
-			return ""
+			return "", false
 		}
 	}
-	return ""
+	return "", false
 }
 
 // If, and only if, the given config node contains ALL sub-nodes listed in
@@ -631,11 +639,13 @@ func getUniqueKey(c xnode, uniques [][]xml.Name) string {
 
 	var outs []string
 	for _, uniq := range uniques {
-		desc := resolveDescendant(c, uniq)
-		if desc == "" {
+		desc, present := lookupDescendant(c, uniq)
+		if !present {
 			return ""
 		}
-		outs = append(outs, desc)
+		// Quoted, so that an empty value is not taken for an absent
+		// leaf and no value can imitate the separator.
+		outs = append(outs, fmt.Sprintf("%q", desc))
 	}
 	//use middle dot (U+00B7) to join strings so we don't have
 	//problems with string values.
